@@ -1,7 +1,7 @@
 (* C03 — proofs about the EvolvableMultiInput machine. *)
 From Coq Require Import List ZArith Bool String Lia.
 Import ListNotations.
-From AgileV Require Import C03.Model C03.ModelCnn C03.ModelNet C03.ModelMulti C03.Proofs C03.ProofsCnn C03.ProofsNet.
+From AgileV Require Import C03.Model C03.ModelCnn C03.ModelNet C03.ModelMulti C03.Proofs C03.ProofsCnn C03.ProofsCnn2 C03.ProofsCnnFix C03.ProofsNet.
 Local Open Scope Z_scope.
 
 Definition multi_meth_ok (m : multi_meth) : Prop :=
@@ -44,10 +44,10 @@ Proof.
   intros Hl Hm (HL & Hne & HN & HF). split; [apply multi_latent_inv; auto; lia|].
   rewrite multi_cnn_step. destruct m as [nn|nn|cm]; auto.
   assert (HN' : c_min_layers (mu_cnn_cfg c) <= zlen (channels (arch_of (cnn_step (mu_cnn_static s (mu_latent a)) (mu_cnn_cfg c) (mu_cnn a) cm r1 r2))) <= c_max_layers (mu_cnn_cfg c))
-    by (apply cnn_layers_inv; auto; lia).
+    by (apply cnn_layers_inv_fix; auto; lia).
   split; [|split; auto].
   - intros E. rewrite E in HN'. cbn in HN'. lia.
-  - apply cnn_channels_inv; auto; lia.
+  - apply cnn_channels_inv_fix; auto; lia.
 Qed.
 
 Theorem multi_rebuild_exact s c st m r1 r2 :
